@@ -348,6 +348,20 @@ func (f *SQLFormatter) formatInsert(stmt *ast.InsertStatement) error {
 	if err := f.formatOnConflict(stmt.OnConflict); err != nil {
 		return err
 	}
+	if dk := stmt.OnDuplicateKey; dk != nil && len(dk.Updates) > 0 {
+		f.writeNewline()
+		f.writeKeyword("ON DUPLICATE KEY UPDATE")
+		f.builder.WriteString(" ")
+		for i, update := range dk.Updates {
+			update := update // G601: Create local copy to avoid memory aliasing
+			if i > 0 {
+				f.builder.WriteString(", ")
+			}
+			if err := f.formatUpdateExpression(&update); err != nil {
+				return err
+			}
+		}
+	}
 	f.formatReturning(stmt.Returning)
 	return nil
 }
